@@ -19,6 +19,7 @@ SPEC = {
         ("_build_matching_path(back-tracking follows the stored predecessor links to a most probable predecessor; depth counts emitting entries; result reversed from the chosen entry: loop invariants)", 'backtrack', r'(^chain:|::inv-(init|preserved)::)'),
         ("node_path_to_only_nodes(nodes-only view of a state sequence of arbitrary length, nodes and edges in any mix: a stay adds nothing, a node state adds itself iff new, an edge attached to the last node adds exactly its other end whichever way round it is stored, an unattached edge raises the documented exception or - jumps allowed - adds both ends; prev_node = last output node: loop invariant; LEMMA for the last sentence of C04: if every edge state is an edge of the map and every consecutive pair is the same state or a move the map offers (no linked parallel edges, no jumps) then no path raises and every node added is adjacent to and different from the node before it - extra invariant prev_node = end node of the preceding state)", 'only_nodes', r'(^only-nodes:|^walk:|::inv-(init|preserved)::|no-raise)'),
         ("get_path / path_pred_onlynodes / path_pred_onlynodes_withjumps(the nodes-only view a user reads is ONE conversion of the stored state sequence; its only edit: nodes dropped at the ENDS of the converted list - a contiguous part of a pairwise adjacent sequence; nothing is written; the stricter clauses 'only the first node, iff the first match lies beyond the middle of its edge' and the hand-over of the jump permission are in the contract but not selected here: C04 does not speak about them - on a walk the jump branch is never taken, lemma above)", 'get_path', r'(^get-path:(?!first-node-dropped|only-the-first|jump-permission)|no-raise)'),
+        ("InMemMap.nodes_nbrto / InMemMap.edges_nbrto / BaseMap.edges_nbrto against the abstract view of the graph (arbitrary size, dangling references and nodes without a location allowed): a listed label yields one tuple iff it is a node with a location; the edges offered are exactly those leaving the END node of the given edge plus the pairs declared as linked to THIS directed edge, with the map's locations - the neighbour-query contract the matcher-side proofs assume, discharged for the in-memory backend; C04 selects the soundness direction (whatever is offered is a move of the abstract view, with the map's locations); completeness of the queries is claimed by C01 and C12", 'inmem_nbrs', r'(^nbrs:(?!complete)|^enbrs:(?!complete)|no-raise)'),
         ("K-upsert(distinct states are filed under distinct keys: the key is the tuple of labels, observation index and depth)", 'upsert', r'^upsert:absent')],
     'bounded': [
         ('walk-in-the-graph', suites.case_C04, 1500, 200000, RULE + '; ' + 'one case in six with labels that are strings of exactly two characters; for every edge of every map the moves edges_nbrto offers are compared with the road graph and the declared links; non-trivial = best path visits at least two different states; histories of <= 4 operations', '')],
